@@ -67,7 +67,7 @@ impl Notify {
 
             state.notified = true;
 
-            let (active, inactive) = execution.threads.split_active();
+            let (_, inactive) = execution.threads.split_active();
 
             for thread in inactive {
                 let obj = thread
@@ -75,10 +75,12 @@ impl Notify {
                     .as_ref()
                     .map(|operation| operation.object());
 
-                if obj == Some(self.state.erase()) {
+                // Wake the thread waiting on this object. Causality is
+                // transferred by `synchronize`.
+                if obj == Some(self.state.erase()) && thread.is_blocked() {
                     trace!(state = ?self.state, thread = ?thread.id, "Notify::notify");
 
-                    thread.unpark(active);
+                    thread.set_runnable();
                 }
             }
         });
